@@ -51,6 +51,10 @@ def c02(tier, seed, work):
                store_consts(Buckets={"bkt1"}, KeySetName="list", Bodies={"x1"},
                             OpNames={"CreateBucket", "DeleteBucket", "PutObject", "GetObject", "DeleteObject", "DeleteMulti", "ListObjects"}),
                ["mem", "bolt"], small=True, **st)
+    # direction B: long random sequential histories (150 operations on three keys) recorded from every backend and
+    # validated by TLC against S3!Step (TraceConc with a single client)
+    conc_stage(rep, work, "random-histories", ALL4 + ["singlemem", "singleos"], [1], runs=8 if thorough else 3, ops=0, keys=3,
+               gated=False, seq=300 if thorough else 150)
     if thorough:
         tour_stage(rep, work, "store-2b-3k", "MC_Store", store_consts(KeySetName="nest"), ALL4, small=True,
                    timeout=3000, **st)
@@ -83,6 +87,9 @@ def c05(tier, seed, work):
                             OpNames={"CreateBucket", "PutObject", "DeleteObject", "PutVersioning",
                                      "DeleteObjectVersion", "GetObjectVersion"}),
                ["mem"], **st)
+    # direction B: long random version histories (status changes, version deletes, multi-deletes, copies) on three keys
+    conc_stage(rep, work, "random-version-histories", ["mem"], [1], runs=24 if tier == "thorough" else 8, ops=0, keys=3,
+               gated=False, seq=400 if tier == "thorough" else 200)
     if tier == "thorough":
         tour_stage(rep, work, "ver-1k-3v-all", "MC_Store",
                    store_consts(Buckets={"bkt1"}, KeySetName="a", CfgName="mem", OpNames=VER_OPS, MaxVids=3,
